@@ -65,3 +65,18 @@ W void w_md_read_key(const unsigned char* in, unsigned n, MOut* o) {
   if (c == DeserializationError::Ok) { JsonString s = (d.*get(T_sbuf())).str(); o->len = unsigned(strlen(s.c_str())); for (unsigned i = 0; i < 16 && i < o->len + 1; i++) o->bytes[i] = (unsigned char)s.c_str()[i]; }
 }
 W unsigned w_maxstr(void) { return unsigned(ARENA_CHUNK - sizeofString(0)); }   // longest string one arena chunk can hold
+// ---- readString into a document that already holds one string (de-duplication through StringBuffer::save)
+struct DedupOut { unsigned code, len, shared, pre_refs, pre_len, overflowed, kind; unsigned char bytes[8]; };
+W void w_md_str_pre(const unsigned char* in, unsigned n, const char* pre, unsigned prelen, DedupOut* o) {
+  arena.reset(0); ResourceManager rm(&arena); MD d(&rm, VReader{in, in + n});
+  StringNode* p = rm.saveString(adaptString(pre, prelen));
+  VariantData v;
+  Code c = (d.*get(T_pv()))(&v, AllowAllFilter(), NL(3));
+  o->code = unsigned(c); o->len = 0; o->shared = 0; o->overflowed = rm.overflowed(); o->kind = unsigned(v.type());
+  if (c == DeserializationError::Ok && (v.type() == VariantType::OwnedString || v.type() == VariantType::RawString)) {
+    JsonString s = v.type() == VariantType::OwnedString ? v.asString() : v.asRawString(); o->len = unsigned(s.size());
+    for (unsigned i = 0; i < 8 && i < s.size(); i++) o->bytes[i] = (unsigned char)s.c_str()[i];
+    o->shared = p && s.c_str() == p->data;
+  }
+  o->pre_refs = p ? unsigned(p->references) : 0; o->pre_len = p ? unsigned(p->length) : 0;
+}
